@@ -9,6 +9,7 @@ import (
 	"bufio"
 	"bytes"
 	"encoding/json"
+	"fmt"
 	"math/big"
 	"os"
 	"testing"
@@ -43,6 +44,8 @@ type vsObs struct {
 	Value     string `json:"value"`
 	Err       string `json:"err"`
 }
+
+func hexs(b []byte) string { return fmt.Sprintf("%x", b) }
 
 func vsVerify(root []byte, incl bool, comp bool, key, val, pk, pv, bitmap []byte, ap [][]byte, height int) bool {
 	vt := trie.NewTrie(root, common.Hasher, nil)
@@ -139,9 +142,31 @@ func TestVerifStateDBProofs(t *testing.T) {
 							}
 							obs = append(obs, o)
 						}
-						if len(sroots[rj]) == 0 {
+						// light-client flow: the storage root is taken out of the VERIFIED account
+						// proof of the contract, not from the node's own state object
+						cid := types.ToAccountID([]byte(c.Contract))
+						cp, cerr := sdb.GetAccountAndProof(cid[:], roots[rj], comp)
+						oc := vsObs{Kind: "contract", Name: c.Contract, Round: rj, UseRoot: true, Comp: comp}
+						var proved []byte
+						if cerr != nil {
+							oc.Err = cerr.Error()
+						} else {
+							oc.Inclusion = cp.Inclusion
+							if cp.Inclusion {
+								oc.Verified = vsVerify(roots[rj], true, comp, cid[:], getHashBytes(cp.State), cp.ProofKey, cp.ProofVal, cp.Bitmap, cp.AuditPath, int(cp.Height))
+								proved = common.Compactz(cp.State.GetStorageRoot())
+								oc.Value = hexs(proved)
+								oc.Nonce = cp.State.GetNonce()
+							}
+						}
+						obs = append(obs, oc)
+						if !bytes.Equal(proved, sroots[rj]) {
+							obs = append(obs, vsObs{Kind: "contract", Name: c.Contract, Round: rj, Err: "storage root in the proved state differs from the contract's storage root"})
+						}
+						if len(proved) == 0 {
 							continue
 						}
+						sroots[rj] = proved
 						for _, vn := range c.QVars {
 							key := types.GetHashID([]byte(vn))
 							o := vsObs{Kind: "var", Name: vn, Round: rj, UseRoot: true, Comp: comp}
@@ -163,7 +188,6 @@ func TestVerifStateDBProofs(t *testing.T) {
 				}
 			}
 		}
-		_ = bytes.Equal
 		b, _ := json.Marshal(obs)
 		w.Write(b)
 		w.WriteByte('\n')
